@@ -81,8 +81,8 @@ Init == /\ fs = FS0 /\ proc = [p \in Proc |-> "up"] /\ cur = [p \in Proc |-> Ope
 -----------------------------------------------------------------------------
 \* what a reader with fresh objects would obtain from the current tree
 
-NoC == [model |-> "none", data |-> "none", hash |-> "none", res |-> "none"]
-Garbled == [model |-> "other", data |-> "other", hash |-> "other", res |-> "other"]
+NoC == [model |-> "none", data |-> "none", hash |-> "none", res |-> "none", rlog |-> <<>>]
+Garbled == [model |-> "other", data |-> "other", hash |-> "other", res |-> "other", rlog |-> <<>>]
 
 WouldRetrieve(m) ==
     IF fs.pending[m] THEN [out |-> "pending", c |-> NoC]
@@ -93,7 +93,9 @@ WouldRetrieve(m) ==
          ELSE [out |-> "ok",
                c |-> [model |-> ParamOf[m], data |-> fs.csv[n],
                       hash |-> IF fs.csv[n] = DataOf[m] THEN m ELSE "other",
-                      res |-> IF fs.rfile[m] = "ok" THEN m ELSE IF fs.rfile[m] = "absent" THEN "none" ELSE "other"]]
+                      res |-> IF fs.rfile[m] = "ok" THEN m ELSE IF fs.rfile[m] = "absent" THEN "none" ELSE "other",
+                      \* the results log is part of results.json: read back entry by entry in file order
+                      rlog |-> IF fs.rfile[m] = "ok" THEN [i \in 1..LogLenOfDef[m] |-> i] ELSE <<>>]]
 
 WouldResolve(n) ==
     IF fs.link[n] = "none" THEN [out |-> "notfound", key |-> "none"]
@@ -108,7 +110,7 @@ WouldRetrieveName(n) ==
     ELSE LET e == WouldRetrieve(r.key) IN
          IF e.out # "ok" THEN e
          ELSE IF fs.ann[n] = "none" THEN [out |-> "notfound", c |-> NoC]
-         ELSE [out |-> "ok", c |-> [model |-> e.c.model, data |-> e.c.data, hash |-> e.c.hash, res |-> e.c.res,
+         ELSE [out |-> "ok", c |-> [model |-> e.c.model, data |-> e.c.data, hash |-> e.c.hash, res |-> e.c.res, rlog |-> e.c.rlog,
                                     name |-> n, desc |-> fs.ann[n]]]
 
 WouldReadLog ==
@@ -133,7 +135,7 @@ Finish(p, l, out) ==
     /\ hist' = IF TrackHist THEN Append(hist, [op |-> o, out |-> out, steps |-> steps'[p]]) ELSE hist
     /\ cur' = [cur EXCEPT ![p] = NoOp] /\ pc' = [pc EXCEPT ![p] = "idle"] /\ vol' = [vol EXCEPT ![p] = Vol0]
     /\ UNCHANGED <<proc, nops, ncrash>>
-    /\ CASE o.op = "Store" -> /\ S' = StoreUpdate(S, o.m, o.n, o.d, out)
+    /\ CASE o.op = "Store" -> /\ S' = StoreUpdate(S, o.m, o.n, o.d, out, LogLenOfDef[o.m])
                               /\ viol' = IF letter \in {"ok", "U"} THEN viol
                                          ELSE viol \cup {<<letter, o.m, out,
                                                           \E x \in S.interrupted : DataOf[x] = DataOf[o.m]>>}
@@ -363,7 +365,7 @@ Crash == \E p \in Proc :
     /\ vol' = [vol EXCEPT ![p] = Vol0] /\ steps' = [steps EXCEPT ![p] = <<>>]
     /\ ncrash' = ncrash + 1 /\ UNCHANGED <<nops, viol>>
     /\ hist' = IF TrackHist THEN Append(hist, [op |-> cur[p], out |-> "crash", steps |-> steps[p], before |-> pc[p]]) ELSE hist
-    /\ S' = CASE cur[p].op = "Store" -> StoreUpdate(S, cur[p].m, cur[p].n, cur[p].d, "crash")
+    /\ S' = CASE cur[p].op = "Store" -> StoreUpdate(S, cur[p].m, cur[p].n, cur[p].d, "crash", LogLenOfDef[cur[p].m])
               [] cur[p].op = "Log" -> LogUpdate(S, cur[p].g, "crash")
               [] OTHER -> S
 Restart == \E p \in Proc :
